@@ -368,9 +368,14 @@ def main(harness_name, argv=None):
     os.makedirs(REPLAYS, exist_ok=True)
     known = load_known(prop)
     seen_sig, violations, known_hits, nonrepro = {}, [], {}, []
-    max_replays = getattr(H, "MAX_REPLAYS", 12)
+    max_replays = getattr(H, "MAX_REPLAYS", 16)
     n_replayed = 0
+    # one counter-example of every distinct signature first, so that no kind of violation is starved by the replay cap
+    first, rest, seen_first = [], [], set()
     for c in cexs:
+        (rest if c["signature"] in seen_first else first).append(c)
+        seen_first.add(c["signature"])
+    for c in first + rest:
         sig = c["signature"]
         if seen_sig.get(sig, 0) >= 2 or n_replayed >= max_replays:
             continue
